@@ -43,11 +43,14 @@ def gen_plan(run_seed: int, k: int, tier: str) -> dict:
         # (an `opcode` policy -- pre-emption on opcode events -- exists in sched.py but is never
         # drawn: CPython 3.12.1 segfaults with frame.f_trace_opcodes when an exception unwinds a
         # traced frame; pre-emption is at line granularity only)
-        kinds = ("seq", "rand", "pct", "site")
-        kind = rng.choices(kinds, (50, 22, 12, 16))[0]
+        kinds = ("seq", "rand", "pct", "site", "fresh")
+        kind = rng.choices(kinds, (42, 20, 10, 12, 16))[0]
     policy = {"kind": kind}
+    if kind == "fresh":
+        policy["p"] = rng.choice((0.0, 1e-3, 1e-2))
+        policy["p_new"] = rng.choice((0.1, 0.25, 0.5))
     if kind in ("rand", "site"):
-        policy["p"] = rng.choice((1e-4, 1e-3, 1e-2, 5e-2))
+        policy["p"] = rng.choice((1e-4, 1e-3, 1e-2, 5e-2, 0.2))
         if kind == "site":
             policy["p"] = rng.choice((1e-4, 1e-3))
     if kind == "pct":
@@ -62,6 +65,8 @@ def gen_plan(run_seed: int, k: int, tier: str) -> dict:
         gsel["P-leak"] = fixed["P-leak"]
     if rng.random() < 0.5:
         gsel["P-builtin"] = fixed["P-builtin"]
+        if rng.random() < 0.5:
+            gsel["P-builtin2"] = fixed["P-builtin2"]
     if rng.random() < 0.3:
         gsel["P-leak2"] = fixed["P-leak2"]
     if rng.random() < 0.25:
@@ -75,6 +80,10 @@ def gen_plan(run_seed: int, k: int, tier: str) -> dict:
         grng = random.Random(common.derive_seed("C15-rg", k % 16, (k // 16) // 4))
         for i in range(rng.randint(1, 2)):
             gsel[f"R{i}"] = pool.random_grammar(grng)
+            if rng.random() < 0.4:
+                tw = pool.twin_of(gsel[f"R{i}"])
+                if tw["text"] != gsel[f"R{i}"]["text"]:
+                    gsel[f"R{i}t"] = tw
     if not gsel:
         gsel["P-leak"] = fixed["P-leak"]
     gids = sorted(gsel)
@@ -128,11 +137,36 @@ def gen_plan(run_seed: int, k: int, tier: str) -> dict:
             setup.append(parse_op(op["id"]))
     shared = [x for x in objects]
 
+    # swarm knob: a HAMMER run -- every client spends the run parsing with ONE shared object
+    # that (with probability 1/2) nobody has used yet, so first-use races and per-call
+    # windows on a shared parser / generated module get dense overlap
+    hammer = n_clients > 1 and kind != "seq" and rng.random() < 0.35
+    hammer_target = None
+    if hammer:
+        op = new_op("setup")
+        # prefer optimized parsers half of the time: lazily compiled regexes, SKIP rule
+        if rng.random() < 0.5:
+            op["opt"] = "o_shared"
+            objects[op["id"]]["opt"] = "o_shared"
+        setup.append(op)
+        hammer_target = op["id"]
+        if rng.random() < 0.45:
+            setup.append(gen_op("setup", op["id"]))
+            hammer_target = setup[-1]["id"]
+        if rng.random() < 0.5:
+            setup.append(parse_op(hammer_target))
+        shared = [x for x in objects]
+
     clients = []
     for c in range(n_clients):
         ops = []
         mine: list[str] = []
         n_ops = rng.randint(3, 12)
+        if hammer:
+            for _ in range(rng.randint(4, 10)):
+                ops.append(parse_op(hammer_target) if rng.random() < 0.9 else parse_op(rng.choice(shared)))
+            clients.append(ops)
+            continue
         while len(ops) < n_ops:
             avail = shared + mine
             r = rng.random()
@@ -256,6 +290,74 @@ def gen_plan(run_seed: int, k: int, tier: str) -> dict:
     }
 
 
+def gen_race_plan(run_seed: int, k: int) -> dict:
+    """A RACE plan: 12-30 short rounds in one process.  Each round creates a fresh parser
+    (and often a module), then lets 2-3 clients parse with that one object at once, under a
+    schedule with very few pre-emptions (one PCT change point at a uniformly drawn step, or
+    a small per-step probability).  First-use windows (lazy initialisation that publishes
+    before it is complete) and per-call windows on a shared object are a few lines wide and
+    are hit with a per-round probability of about one in a hundred, so what finds them is
+    the number of cheap rounds, not the length of a run."""
+    rng = random.Random(run_seed)
+    cands = dict(pool.FIXED)
+    cands.update(pool.bundled())
+    names = rng.sample(sorted(cands), rng.randint(2, 4))
+    gsel = {n: cands[n] for n in names}
+    if rng.random() < 0.3:
+        gsel["R0"] = pool.random_grammar(random.Random(common.derive_seed("C15-rg", k % 16, (k // 16) // 4)))
+    gids = sorted(gsel)
+    optimizers = {"o_none": {"passes": None}, "o_shared": {"passes": list(pool.PASS_NAMES), "shared_default": True}, "o1": {"passes": pool.random_optimizer_cfg(rng)}}
+    phases = []
+    counter = 0
+    for r in range(rng.randint(12, 30)):
+        g = rng.choice(gids)
+        o = rng.choices(("o_none", "o_shared", "o1"), (4, 4, 2))[0]
+        counter += 1
+        pid = f"p{counter}"
+        setup = [{"op": "new", "id": pid, "g": g, "opt": o, "debug": False}]
+        target = pid
+        if rng.random() < 0.4:
+            counter += 1
+            setup.append({"op": "gen", "id": f"m{counter}", "p": pid})
+            target = f"m{counter}"
+        calls = gsel[g]["calls"]
+        if rng.random() < 0.25:
+            rule, text = rng.choice(calls)
+            setup.append({"op": "parse", "t": target, "rule": rule, "text": text, "pos": 0})
+        clients = []
+        same = rng.random() < 0.3
+        first = rng.choice(calls)
+        for c in range(rng.choices((2, 3), (7, 3))[0]):
+            ops = []
+            for _ in range(rng.randint(1, 3)):
+                rule, text = first if same else rng.choice(calls)
+                ops.append({"op": "parse", "t": target, "rule": rule, "text": text, "pos": 0})
+            clients.append(ops)
+        for i, op in enumerate(setup):
+            op["oid"] = f"r{r}.s.{i}"
+        for c, ops in enumerate(clients):
+            for i, op in enumerate(ops):
+                op["oid"] = f"r{r}.c{c}.{i}"
+        if rng.random() < 0.6:
+            policy = {"kind": "pct", "points": sorted(rng.randint(1, rng.choice((60, 150, 400))) for _ in range(rng.choice((1, 1, 2))))}
+        else:
+            policy = {"kind": "rand", "p": rng.choice((0.005, 0.02, 0.05, 0.1))}
+        phases.append({"setup": setup, "clients": clients, "policy": policy, "sched_seed": rng.randrange(1 << 30), "faults": []})
+    return {"property": "C15", "kind": "race", "run_seed": run_seed, "job": k, "grammars": {g: gsel[g]["text"] for g in gids}, "optimizers": optimizers, "phases": phases}
+
+
+def gen_hashseed_job(seed: int, k: int) -> dict:
+    rng = random.Random(seed)
+    cands = dict(pool.FIXED)
+    cands.update(pool.bundled())
+    if rng.random() < 0.3:
+        cands = {"R": pool.random_grammar(rng)}
+    name = rng.choice(sorted(cands))
+    g = cands[name]
+    calls = [list(c) + [0] for c in rng.sample(g["calls"], min(len(g["calls"]), rng.randint(3, 8)))]
+    return {"property": "C15", "kind": "hashseed", "job": k, "hashseed": 0, "gname": name, "gtext": g["text"], "passes": pool.random_optimizer_cfg(rng), "mode": rng.choice(("interpreter", "generated")), "calls": calls}
+
+
 # ======================================================================= observation
 
 
@@ -332,6 +434,9 @@ def with_pad(headroom, fn):
 def execute_plan(plan) -> dict:
     """Child process: run the explicit or policy-driven plan; return observations."""
     gc.disable()
+    if plan.get("kind") == "refgroup":
+        # hash-seed independence job: this zygote's interpreter runs under plan["hashseed"]
+        return ref_group_child((plan["gtext"], plan["passes"], plan["mode"], [tuple(c) for c in plan["calls"]]))
     from pest import Parser  # noqa: PLC0415
 
     class SimParser(Parser):
@@ -355,27 +460,12 @@ def execute_plan(plan) -> dict:
     optim_specs = plan["optimizers"]
     optim_objs: dict = {}
     objs: dict = {}  # id -> dict(kind, obj, g, passes)
-    clients = plan["clients"]
-    n = len(clients)
-    explicit = plan.get("schedule")
-    sched = Scheduler(
-        n,
-        (common.PEST_SRC, "<gen:"),
-        policy=plan.get("policy"),
-        sched_seed=plan.get("sched_seed", 0),
-        explicit=None if explicit is None else explicit["yields"],
-        faults=plan.get("faults", ()),
-        hot_funcs=HOT_FUNCS,
-        force_trace=bool(plan.get("force_trace")),
-        step_cap=plan.get("step_cap", 1_500_000),
-        op_step_cap=plan.get("op_step_cap", 400_000),
-    )
-    sched.op_order = [{op["oid"]: i for i, op in enumerate(ops)} for ops in clients]
-    if explicit is not None and explicit.get("first") is not None and 0 <= explicit["first"] < n:
-        sched.set_start_hint(explicit["first"])
-    exhaust = {(f["client"], f["oid"]): f["headroom"] for f in plan.get("faults", ()) if f["kind"] == "exhaust"}
     results: list[dict] = []
     history: list = []  # executed order of (client, oid) -- for probes
+    # rebound for every phase (a plan is one phase, a race plan many -- see run_phase)
+    sched: Scheduler = None  # type: ignore[assignment]
+    clients: list = []
+    exhaust: dict = {}
 
     def get_opt(oid):
         if oid not in optim_objs:
@@ -467,17 +557,52 @@ def execute_plan(plan) -> dict:
         rec["steps"] = sched.op_steps[me] if me >= 0 else 0
         return rec
 
-    # ---- setup phase: sequential, on the main thread, never pre-empted, never faulted
-    for op in plan.get("setup", ()):
-        try:
-            rec = do_op(-1, op)
-        except RecursionError:
-            rec = {"oid": op["oid"], "client": -1, "op": op["op"], "status": "aborted-exhaust"}
-        rec["steps"] = 0
-        results.append(rec)
-        history.append((-1, op["oid"]))
-
     crashed: list[str] = []
+
+    def run_phase(ph):
+        """One phase = a sequential setup prefix (main thread, never pre-empted, never
+        faulted) followed by the clients of the phase under their own scheduler.  Process
+        state (objects, optimizers, husks, everything python-pest keeps) carries over."""
+        nonlocal sched, clients, exhaust
+        clients = ph["clients"]
+        n = len(clients)
+        explicit = ph.get("schedule")
+        sched = Scheduler(
+            n,
+            (common.PEST_SRC, "<gen:"),
+            policy=ph.get("policy"),
+            sched_seed=ph.get("sched_seed", 0),
+            explicit=None if explicit is None else explicit["yields"],
+            faults=ph.get("faults", ()),
+            hot_funcs=HOT_FUNCS,
+            force_trace=bool(plan.get("force_trace")),
+            step_cap=plan.get("step_cap", 1_500_000),
+            op_step_cap=plan.get("op_step_cap", 400_000),
+        )
+        sched.op_order = [{op["oid"]: i for i, op in enumerate(ops)} for ops in clients]
+        if explicit is not None and explicit.get("first") is not None and 0 <= explicit["first"] < n:
+            sched.set_start_hint(explicit["first"])
+        exhaust = {(f["client"], f["oid"]): f["headroom"] for f in ph.get("faults", ()) if f["kind"] == "exhaust"}
+        for op in ph.get("setup", ()):
+            try:
+                rec = do_op(-1, op)
+            except RecursionError:
+                rec = {"oid": op["oid"], "client": -1, "op": op["op"], "status": "aborted-exhaust"}
+            rec["steps"] = 0
+            results.append(rec)
+            history.append((-1, op["oid"]))
+        if n:
+            threads = [threading.Thread(target=client, args=(i,), name=f"sim-client-{i}", daemon=True) for i in range(n)]
+            for t in threads:
+                t.start()
+            sched.start()
+            if not sched.done_evt.wait(timeout=plan.get("wall_cap_s", 25.0 if not sched.traced else 90.0)):
+                raise RuntimeError("simulated clients did not finish (harness deadlock or hang)")
+            for t in threads:
+                t.join(timeout=5)
+        if crashed:
+            raise RuntimeError("; ".join(crashed))
+        return sched
 
     def client(me):
         sched.wait_turn(me)
@@ -502,31 +627,33 @@ def execute_plan(plan) -> dict:
             sys.settrace(None)
             sched.thread_done(me)
 
-    if n:
-        threads = [threading.Thread(target=client, args=(i,), name=f"sim-client-{i}", daemon=True) for i in range(n)]
-        for t in threads:
-            t.start()
-        sched.start()
-        if not sched.done_evt.wait(timeout=plan.get("wall_cap_s", 25.0 if not sched.traced else 90.0)):
-            raise RuntimeError("simulated clients did not finish (harness deadlock or hang)")
-        for t in threads:
-            t.join(timeout=5)
-    if crashed:
-        raise RuntimeError("; ".join(crashed))
+    phases = plan.get("phases") or [plan]
+    scheds = []
+    for ph in phases:
+        scheds.append(run_phase(ph))
+        if scheds[-1].capped:
+            break
     log = hashlib.blake2b(digest_size=12)
-    log.update(sched.digest().encode())
+    for sc in scheds:
+        log.update(sc.digest().encode())
     log.update(repr([(r["oid"], r["status"], r.get("obs"), r.get("build")) for r in results]).encode())
+    probe: dict = {}
+    for sc in scheds:
+        for k2, v2 in sc.concurrency_probe.items():
+            probe[k2] = probe.get(k2, 0) + v2
+    schedules = [{"first": getattr(sc, "first", None), "yields": sc.recorded} for sc in scheds]
     return {
         "results": results,
         "digest": log.hexdigest(),
-        "steps": sched.steps,
-        "switches": sched.switches,
-        "schedule": {"first": getattr(sched, "first", None), "yields": sched.recorded},
-        "fired": sched.fired,
-        "traced": sched.traced,
-        "capped": sched.capped,
-        "sites": sorted(sched.sites),
-        "concurrency_probe": sched.concurrency_probe,
+        "steps": sum(sc.steps for sc in scheds),
+        "switches": sum(sc.switches for sc in scheds),
+        "schedule": schedules[0],
+        "schedules": schedules,
+        "fired": [f for sc in scheds for f in sc.fired],
+        "traced": any(sc.traced for sc in scheds),
+        "capped": any(sc.capped for sc in scheds),
+        "sites": sorted({x for sc in scheds for x in sc.sites}),
+        "concurrency_probe": probe,
         "history": history,
     }
 
@@ -657,13 +784,48 @@ def judge(plan, run, refs: RefServer):
 
 def explicit_plan(plan, run):
     """The replayable form: the schedule the run actually took replaces the policy."""
+    if plan.get("phases"):
+        p = dict(plan)
+        phs = []
+        for i, ph in enumerate(plan["phases"]):
+            q = {k: v for k, v in ph.items() if k != "policy"}
+            if i < len(run["schedules"]):
+                q["schedule"] = run["schedules"][i]
+            q["found_policy"] = ph.get("policy", ph.get("found_policy"))
+            phs.append(q)
+        p["phases"] = phs
+        return p
     p = {k: v for k, v in plan.items() if k not in ("policy",)}
     p["schedule"] = run["schedule"]
     p["found_policy"] = plan.get("policy")
     return p
 
 
+def race_stats(plan, run, viols, checked):
+    statuses = {}
+    for r in run["results"]:
+        statuses[r["status"]] = statuses.get(r["status"], 0) + 1
+    st = {
+        "runs": 1,
+        "race_runs": 1,
+        "race_rounds": len(plan["phases"]),
+        "race_rounds_with_a_mid_operation_switch": sum(1 for sc in run["schedules"] if any(y[2] >= 0 for y in sc["yields"])),
+        "runs_by_policy": {"race": 1},
+        "runs_fault_free": 1,
+        "violating_runs_fault_free": 1 if viols else 0,
+        "steps": run["steps"],
+        "switches": run["switches"],
+        "op_status": statuses,
+        "parses_checked": checked,
+        "set_sites": [f"{a}:{b}" for a, b in run["sites"]],
+        "probes": dict(run["concurrency_probe"]),
+    }
+    return st, bool(checked and run["switches"])
+
+
 def plan_stats(plan, run, viols, checked):
+    if plan.get("phases"):
+        return race_stats(plan, run, viols, checked)
     pol = plan.get("policy", {}).get("kind", "explicit")
     fired = {}
     for f in run["fired"]:
@@ -710,8 +872,10 @@ def plan_stats(plan, run, viols, checked):
                 failed_or_aborted_on.add(t)
                 p_after_rec += 0
     probes.update({"parse_after_optimized_parser_created_since_last_parse_of_same_object": p_between, "parse_after_aborted_call_on_same_object": p_after_abort, "generate_after_foreign_from_grammar": p_gen_after_foreign})
-    twin = len({g for g in plan["grammars"] if g.startswith("P-twin") or g in ("P-leak", "P-leak2")}) >= 2
+    gs = set(plan["grammars"])
+    twin = {"P-twin1", "P-twin2"} <= gs or {"P-leak", "P-leak2"} <= gs or {"P-builtin", "P-builtin2"} <= gs or any(g.endswith("t") and g[:-1] in gs for g in gs)
     probes["same_rule_names_in_two_grammars_in_one_run"] = 1 if twin else 0
+    del gs
     nontrivial = checked > 0 and (p_between or p_after_abort or run["switches"] > 0 or len({op.get("t") for op in opmap.values() if op["op"] == "parse"}) > 1)
     st = {
         "runs": 1,
@@ -759,9 +923,48 @@ class Check:
         return {"n_jobs": -1, "budget_s": float(common.env_int("VERIF_BUDGET_S", 900))}
 
     def make_job(self, seed, k, tier):
+        if k % 48 == 47:
+            return gen_hashseed_job(common.derive_seed("C15-hs", seed, k), k)
+        if k % 3 == 2:
+            plan = gen_race_plan(common.derive_seed("C15-race", seed, k), k)
+            plan["hashseed"] = k % 4
+            return plan
         plan = gen_plan(common.derive_seed("C15", seed, k), k, tier)
         plan["hashseed"] = k % 4
         return plan
+
+    def run_hashseed_job(self, job, ctx):
+        """Oracle clause 4: the isolated observation for a call key must be the same in
+        fresh interpreters running under PYTHONHASHSEED 0, 1, 2 and 3."""
+        zs = ctx.setdefault("hs_zygotes", {})
+        res = {}
+        for hs in ("0", "1", "2", "3"):
+            z = zs.get(hs)
+            if z is None or z.p.poll() is not None:
+                z = zs[hs] = Zygote(hs)
+            res[hs] = z.run({"kind": "refgroup", "hashseed": hs, "gtext": job["gtext"], "passes": job["passes"], "mode": job["mode"], "calls": job["calls"]}, 120.0)
+        bad = []
+        for i in range(len(job["calls"])):
+            obs = {hs: res[hs]["obs"].get(str(i)) for hs in res}
+            if any(o and o[0] == "ref-error" for o in obs.values()):
+                continue
+            if len({repr(o) for o in obs.values()}) > 1:
+                bad.append((i, obs))
+        builds = {hs: res[hs]["build"] for hs in res}
+        if len({repr(b) for b in builds.values()}) > 1:
+            bad.append((-1, builds))
+        return bad
+
+    def hashseed_violation(self, job, bad):
+        i, obs = bad[0]
+        return {
+            "signature": f"C15/{job['mode']}/result-depends-on-hash-seed",
+            "step": None,
+            "op": None,
+            "detail": {"call": job["calls"][i] if i >= 0 else "build", "observations_by_hashseed": obs},
+            "plan": {**job, "calls": [job["calls"][i]] if i >= 0 else job["calls"]},
+            "hashseed": 0,
+        }
 
     @staticmethod
     def execute(plan, ctx):
@@ -797,12 +1000,16 @@ class Check:
             return run
 
     def run_job(self, plan, ctx):
+        if plan.get("kind") == "hashseed":
+            bad = self.run_hashseed_job(plan, ctx)
+            st = {"hashseed_jobs": 1, "hashseed_calls_cross_checked": len(plan["calls"]), "hashseed_conflicts": len(bad)}
+            return {"stats": st, "violations": [self.hashseed_violation(plan, bad)] if bad else [], "digest": hashlib.blake2b(repr(plan["calls"]).encode(), digest_size=12).hexdigest()}
         run = self.execute(plan, ctx)
         viols, checked = judge(plan, run, ctx["refs"])
         st, nontrivial = plan_stats(plan, run, viols, checked)
         if nontrivial:
             st["set_nontrivial"] = [run["digest"]]
-        if nontrivial and len(plan["clients"]) <= 2 and sum(len(c) for c in plan["clients"]) <= 10:
+        if nontrivial and not plan.get("phases") and len(plan["clients"]) <= 2 and sum(len(c) for c in plan["clients"]) <= 10:
             st["sample_runs"] = [self.describe(explicit_plan(plan, run))[:1500]]
         out_v = []
         seen = set()
@@ -817,18 +1024,42 @@ class Check:
         refs: RefServer = ctx["refs"]
         if ctx.get("zygote") is not None:
             ctx["zygote"].close()
+        for z in ctx.get("hs_zygotes", {}).values():
+            z.close()
         # clause 4 (hash-seed independence): reference observations for the fixed pool are
         # cross-checked between workers running under different PYTHONHASHSEEDs
         pairs = []
+        keys = {}
         for ck, obs in refs.cache.items():
             kh = hashlib.blake2b(repr(ck).encode(), digest_size=8).hexdigest()
             oh = hashlib.blake2b(repr(obs).encode(), digest_size=8).hexdigest()
             pairs.append(f"{kh}:{oh}")
-        return {"reference_requests": refs.requests, "reference_processes_forked": refs.forks, "set_refdigests": pairs}
+            keys[kh] = [ck[0], None if ck[1] is None else list(ck[1]), ck[2], ck[3], ck[4], ck[5]]
+        return {"reference_requests": refs.requests, "reference_processes_forked": refs.forks, "set_refdigests": pairs, "refkeys": keys}
+
+    def driver_violations(self, acc):
+        """Reference observations of one call key that differ between workers running under
+        different PYTHONHASHSEEDs become hash-seed jobs (replayable under all four seeds)."""
+        by_key: dict = {}
+        for p in acc.get("set_refdigests", ()):
+            kh, oh = p.split(":")
+            by_key.setdefault(kh, set()).add(oh)
+        out = []
+        for kh, ohs in sorted(by_key.items()):
+            if len(ohs) > 1 and kh in acc.get("refkeys", {}):
+                gtext, passes, mode, rule, text, pos = acc["refkeys"][kh]
+                job = {"property": "C15", "kind": "hashseed", "job": -1, "hashseed": 0, "gname": "(from reference cross-check)", "gtext": gtext, "passes": passes, "mode": mode, "calls": [[rule, text, pos]]}
+                out.append({"signature": f"C15/{mode}/result-depends-on-hash-seed", "step": None, "op": None, "detail": {"call": [rule, text, pos], "distinct_observations_between_workers": len(ohs)}, "plan": job, "hashseed": 0})
+                if len(out) >= 5:
+                    break
+        return out
 
     # replay / minimisation ---------------------------------------------------------
     def check_plan(self, plan, ctx=None):
         ctx = ctx or self.make_ctx("quick")
+        if plan.get("kind") == "hashseed":
+            bad = self.run_hashseed_job(plan, ctx)
+            return self.hashseed_violation(plan, bad) if bad else None
         run = self.execute(plan, ctx)
         viols, _ = judge(plan, run, ctx["refs"])
         if not viols:
@@ -845,15 +1076,62 @@ class Check:
         # a replayed explicit plan keeps its own (possibly minimised) schedule
         if plan.get("schedule") is not None:
             mv["plan"]["schedule"] = plan["schedule"]
+        if plan.get("phases") and all("schedule" in ph for ph in plan["phases"]):
+            mv["plan"]["phases"] = plan["phases"]
         for k in ("violation", "found", "minimisation"):
             if k in plan:
                 mv["plan"][k] = plan[k]
         return mv
 
     def plan_size(self, plan):
+        if plan.get("kind") == "hashseed":
+            return len(plan["calls"])
+        if plan.get("phases"):
+            return sum(20 + 10 * sum(len(c) for c in ph["clients"]) + 5 * len(ph.get("setup", ())) + len((ph.get("schedule") or {}).get("yields", ())) for ph in plan["phases"])
         return sum(len(c) for c in plan["clients"]) * 10 + len(plan.get("setup", ())) * 10 + len((plan.get("schedule") or {}).get("yields", ())) + 5 * len(plan.get("faults", ())) + sum(len(op.get("text", "")) for c in plan["clients"] for op in c) // 10
 
     def shrink_candidates(self, plan):
+        if plan.get("kind") == "hashseed":
+            for i in range(len(plan["calls"])):
+                if len(plan["calls"]) > 1:
+                    yield {**plan, "calls": plan["calls"][:i] + plan["calls"][i + 1 :]}
+            if plan["passes"] and len(plan["passes"]) > 1:
+                for i in range(len(plan["passes"])):
+                    yield {**plan, "passes": plan["passes"][:i] + plan["passes"][i + 1 :]}
+            return
+        if plan.get("phases"):
+            phs = plan["phases"]
+            n = len(phs)
+            chunk = n // 2
+            while chunk >= 1:
+                for s0 in range(0, n, chunk):
+                    cand = phs[:s0] + phs[s0 + chunk :]
+                    if cand:
+                        yield {**plan, "phases": cand}
+                chunk //= 2
+            for i, ph in enumerate(phs):
+                def with_phase(q, i=i):
+                    return {**plan, "phases": phs[:i] + [q] + phs[i + 1 :]}
+                for c in range(len(ph["clients"])):
+                    ops = ph["clients"][c]
+                    if ops:
+                        yield with_phase({**ph, "clients": ph["clients"][:c] + [[]] + ph["clients"][c + 1 :]})
+                    for j in range(len(ops)):
+                        if len(ops) > 1:
+                            yield with_phase({**ph, "clients": ph["clients"][:c] + [ops[:j] + ops[j + 1 :]] + ph["clients"][c + 1 :]})
+                st = ph.get("setup", [])
+                for j in range(len(st) - 1, 0, -1):
+                    yield with_phase({**ph, "setup": st[:j] + st[j + 1 :]})
+                sc = ph.get("schedule")
+                if sc and sc["yields"]:
+                    ys = sc["yields"]
+                    yield with_phase({**ph, "schedule": {**sc, "yields": []}})
+                    for j in range(len(ys)):
+                        yield with_phase({**ph, "schedule": {**sc, "yields": ys[:j] + ys[j + 1 :]}})
+            used = {op.get("g") for ph in phs for op in ph.get("setup", ()) if op["op"] == "new"}
+            if len(used) < len(plan["grammars"]):
+                yield {**plan, "grammars": {g: t for g, t in plan["grammars"].items() if g in used}}
+            return
         clients = plan["clients"]
         setup = plan.get("setup", [])
         sch = plan.get("schedule") or {"first": None, "yields": []}
@@ -910,6 +1188,9 @@ class Check:
             yield {**plan, "grammars": {g: t for g, t in plan["grammars"].items() if g in used}}
 
     def describe(self, plan):
+        if plan.get("kind") == "hashseed":
+            return f"hash-seed cross-check: grammar {plan.get('gname')} passes={plan['passes']} mode={plan['mode']} calls={plan['calls'][:4]}"
+
         def fmt(op):
             k = op["op"]
             if k == "new":
@@ -924,6 +1205,12 @@ class Check:
                 return f"{k}({op['t']})"
             return k
 
+        if plan.get("phases"):
+            out = []
+            for ph in plan["phases"][:6]:
+                q = {**plan, "phases": None, "setup": ph.get("setup", []), "clients": ph["clients"], "faults": ph.get("faults", []), "schedule": ph.get("schedule"), "policy": ph.get("policy")}
+                out.append("{ " + self.describe(q) + " }")
+            return f"race plan, {len(plan['phases'])} round(s): " + " ; ".join(out) + (" ..." if len(plan["phases"]) > 6 else "")
         parts = []
         if plan.get("setup"):
             parts.append("setup: " + "; ".join(f"[{op['oid']}] " + fmt(op) for op in plan["setup"]))
@@ -956,7 +1243,7 @@ class Check:
         hs_conflicts = sum(1 for v in by_key.values() if len(v) > 1)
         steps = acc.get("steps", 0)
         return {
-            "evaluations": acc.get("runs", 0),
+            "evaluations": acc.get("runs", 0) + acc.get("hashseed_jobs", 0),
             "distinct_nontrivial": len(acc.get("set_nontrivial", ())),
             "rule": (
                 "one evaluation = one simulated run in a pristine forked process: a seeded plan (grammar subset of the pool, 2-5 optimizer objects, "
@@ -969,6 +1256,7 @@ class Check:
             "parses_checked_against_isolated_reference": acc.get("parses_checked", 0),
             "operation_status_counts": acc.get("op_status", {}),
             "runs_by_policy": acc.get("runs_by_policy", {}),
+            "race_plans": {"runs": acc.get("race_runs", 0), "rounds": acc.get("race_rounds", 0), "rounds_with_a_mid_operation_switch": acc.get("race_rounds_with_a_mid_operation_switch", 0), "what": "12-30 short rounds per run: fresh parser (+module), 2-3 clients parsing with it at once, one or two pre-emptions per round"},
             "runs_by_client_threads": acc.get("threads", {}),
             "simulated_time_scheduler_steps": steps,
             "context_switches": acc.get("switches", 0),
@@ -977,6 +1265,7 @@ class Check:
             "fault_kinds_fired": acc.get("faults_fired", {}),
             "fault_free_vs_fault_injecting": {k: acc.get(k, 0) for k in ("runs_fault_free", "runs_with_faults", "violating_runs_fault_free", "violating_runs_with_faults")},
             "probes": acc.get("probes", {}),
-            "isolated_reference": {"requests": acc.get("reference_requests", 0), "processes_forked": acc.get("reference_processes_forked", 0), "distinct_call_keys": len(by_key), "hash_seed_cross_check_conflicts": hs_conflicts},
+            "isolated_reference": {"requests": acc.get("reference_requests", 0), "processes_forked": acc.get("reference_processes_forked", 0), "distinct_call_keys": len(by_key), "hash_seed_cross_check_conflicts_between_workers": hs_conflicts},
+            "hash_seed_independence_jobs": {"jobs": acc.get("hashseed_jobs", 0), "calls_observed_under_4_hash_seeds": acc.get("hashseed_calls_cross_checked", 0), "conflicts": acc.get("hashseed_conflicts", 0)},
             "components": {"real": ["scanner", "grammar parser", "optimizer + passes", "interpreter", "code generator", "generated modules (compiled and exec'ed in the run)", "ParserState/Stack", "regex extension"], "controlled_by_simulator": ["thread scheduling (baton + settrace)", "GC timing (automatic GC off, seeded collect)", "recursion head-room", "regex cache purge", "PYTHONHASHSEED (k mod 4)"], "stub": []},
         }
